@@ -403,4 +403,96 @@ def ofInt (t : Nat) (i : Int) : Nat := (i % ((B ^ t : Nat) : Int)).toNat
 def signedVal (bits v : Nat) : Int :=
   if v / 2 ^ (bits - 1) % 2 = 1 then (v : Int) - ((2 ^ bits : Nat) : Int) else (v : Int)
 
+/-! ## coverage round — serde of `Limb`, `Wrapping<T>`, `Checked<T>`, `ConstMontyForm`; mutable word views;
+    `From<Limb>` for the primitives; `From<Odd<Uint>> for BoxedUint`; formatting forwarded by `NonZero`/`Odd`;
+    `Display` of the error enums.  bincode 1 (`bincode::serialize` / `deserialize`: fixed-width little-endian
+    integers, one tag byte for `Option`, trailing bytes ignored) is the trusted framing, mirrored here. -/
+
+/-- `Serialize for Limb` (src/limb.rs:201-209): `self.0.serialize(..)`; bincode writes a `u64` as 8 LE bytes -/
+def limbSerialize (w : Nat) : List Nat := wordToLeBytes w
+/-- `Deserialize for Limb` (src/limb.rs:191-199): `Word::deserialize`; bincode reads 8 bytes, `none` = too short -/
+def limbDeserialize (bytes : List Nat) : Option Nat :=
+  if bytes.length < 8 then none else some (wordFromLeBytes (bytes.take 8))
+
+/-- `Serialize for Wrapping<T>` (src/wrapping.rs:272-279): `self.0.serialize(..)` -/
+def wrappingSerialize (l : List Nat) : List Nat := serdeSerialize l
+/-- `Deserialize for Wrapping<T>` (src/wrapping.rs:262-269): `Ok(Self(T::deserialize(..)?))` -/
+def wrappingDeserialize (n : Nat) (bytes : List Nat) : Option (List Nat) := serdeDeserialize n bytes
+
+/-- `Serialize for Checked<T>` (src/checked.rs:317-325): `Option::<T>::from(self.0).serialize(..)`;
+    bincode writes an `Option` as the tag byte 0, or 1 followed by the value -/
+def checkedSerialize : Option (List Nat) → List Nat
+  | none => [0]
+  | some l => 1 :: serdeSerialize l
+/-- `Deserialize for Checked<T>` (src/checked.rs:305-315): `Option::<T>::deserialize`, then
+    `CtOption::new(value.unwrap_or_default(), is_some)`; outer `none` = an error (no tag byte, a tag other than
+    0 / 1, or an inner error), `some none` = the absent value (seen through `Option::from`) -/
+def checkedDeserialize (n : Nat) (bytes : List Nat) : Option (Option (List Nat)) :=
+  match bytes with
+  | [] => none
+  | tag :: rest =>
+    if tag = 0 then some none
+    else if tag = 1 then (serdeDeserialize n rest).map some
+    else none
+
+/-- `Serialize for ConstMontyForm` (src/modular/const_monty_form.rs:240-251): `self.montgomery_form.serialize(..)` -/
+def cmSerialize (mf : List Nat) : List Nat := serdeSerialize mf
+/-- `Deserialize for ConstMontyForm` (225-238): `Uint::deserialize`, then `montgomery_form < MOD::MODULUS.0`
+    (`Uint`'s `PartialOrd`: exactness is C06, used on values) or the error "montgomery form must be reduced" -/
+def cmDeserialize (m : List Nat) (bytes : List Nat) : Option (List Nat) :=
+  match serdeDeserialize m.length bytes with
+  | some a => if val a < val m then some a else none
+  | none => none
+
+/-- `as_words_mut()[i] = w` / `as_limbs_mut()[i] = Limb(w)` / `AsMut<[Word; N]>` / `AsMut<[Limb]>` of `Uint`, `Int`,
+    `BoxedUint`: the views alias the limb array in place (`repr(transparent)` pointer cast), so a store at index `i`
+    replaces limb `i` -/
+def setWord (l : List Nat) (i w : Nat) : List Nat := l.set i w
+
+/-- `Word::from(limb)`, `WideWord::from(limb)` (src/limb/from.rs:62-74): `limb.0`, `limb.0.into()` -/
+def limbToWord (w : Nat) : Nat := w
+def limbToWide (w : Nat) : Nat := w
+
+/-- `From<Odd<Uint<N>>>` / `From<&Odd<Uint<N>>> for BoxedUint` (src/uint/boxed/from.rs:96-108): `Self::from(&uint.0)`
+    = `Vec::from(uint.to_limbs()).into()` -/
+def boxedFromOdd (l : List Nat) : List Nat := boxedOfVec (toWords l)
+
+/-- `LowerHex` / `UpperHex` / `Display` / `Binary for NonZero<T>` and `for Odd<T>` (src/non_zero.rs:313-356,
+    src/odd.rs:182-225): `fmt::X::fmt(&self.0, f)` — the formatter (and so the `#` flag) is passed on unchanged -/
+def wrapFmtHex (upper alt : Bool) (l : List Nat) : List Nat := fmtHex upper alt l
+def wrapFmtBin (alt : Bool) (l : List Nat) : List Nat := fmtBin alt l
+def wrapBoxedFmtHex (upper alt : Bool) (l : List Nat) : List Nat := boxedFmtHex upper alt l
+def wrapBoxedFmtBin (alt : Bool) (l : List Nat) : List Nat := boxedFmtBin alt l
+
+/-- `{:o}` / `{:#o}` of a `u64` (core::fmt, trusted): octal digits without leading zeros, `0o` prefix if alternate;
+    what `fmt::Octal for NonZero<T>` / `Odd<T>` forward to for a `T` whose `Octal` is that of its `u64` field -/
+def fmtOctal (alt : Bool) (w : Nat) : List Nat :=
+  (if alt then [48, 111] else []) ++ (Nat.toDigits 8 w).map Char.toNat
+
+def asciiOf (s : String) : List Nat := s.toList.map Char.toNat
+
+/-- `Display for DecodeError` (src/traits.rs:611-627) -/
+def decodeErrorText : DecodeError → List Nat
+  | .Empty => asciiOf "empty value provided"
+  | .InvalidDigit => asciiOf "invalid digit character"
+  | .InputSize => asciiOf "input size is too small to fit in the given precision"
+  | .Precision => asciiOf "the deserialized number is larger than the given precision"
+
+/-- `Display for RandomBitsError<T>` (src/traits.rs:340-369); decimal numbers as `{}` prints a `u32` -/
+def randomBitsErrorText (variant : String) (inner : List Nat) (x y : Nat) : Option (List Nat) :=
+  match variant with
+  | "rand_core" => some inner
+  | "mismatch" =>
+    some (asciiOf ("The requested `bits_precision` (" ++ toString x ++
+      ") does not match the size of the integer corresponding to the type (" ++ toString y ++ ")"))
+  | "too_large" =>
+    some (asciiOf ("The requested `bit_length` (" ++ toString x ++ ") is larger than `bits_precision` (" ++
+      toString y ++ ")."))
+  | _ => none
+
+/-- L0: octal text of `x`, most significant digit first, no leading zeros (`"0"` for zero) -/
+def specOctText (x : Nat) : List Nat :=
+  let k := if x = 0 then 1 else Nat.log2 x / 3 + 1
+  (List.range k).map fun j => 48 + x / 8 ^ (k - 1 - j) % 8
+
 end CB.Encoding
